@@ -564,6 +564,12 @@ func TestPropConcurrent(t *testing.T) {
 			cc.Members = append(cc.Members, c)
 		}
 		cc.Mode = rapid.SampledFrom([]string{"", "", "shared", "pkgfunc"}).Draw(t, "mode")
+		if cc.Mode == "shared" {
+			// the shared Packer carries option lists of various lengths (what a call appends to one of them must stay its own)
+			for i := 0; i < rapid.IntRange(0, 7).Draw(t, "allowpad"); i++ {
+				cc.Members[0].Opts.Allow = append(cc.Members[0].Opts.Allow, fmt.Sprintf("{R}/nowhere%d", i))
+			}
+		}
 		return cc
 	})
 }
